@@ -25,6 +25,7 @@ pub struct Setup {
     pub vault_fees: [u128; 3],          // protocol fee share of the vaults of uwhale, uusdc, ubtc
     pub routes: [u8; 3],                // for uusdc, uatom, ubtc: 0 none, 1 good, 2 route over a missing pool (simulation fails)
     pub cw20_btc: bool,                 // asset 3 ("ubtc") is a cw20 token with that symbol instead of a native denom
+    pub many_vaults: bool,              // nine further (empty) vaults are registered, whose denoms sort before the three that earn fees
 }
 #[derive(Clone, Debug)]
 pub enum Ev {
@@ -59,6 +60,7 @@ fn build(s: &Setup) -> W {
         w.vault_deposit(&v, A[*a], 1_000_000_000_000).expect("deposit");
         vaults.push(v);
     }
+    if s.many_vaults { for c in "abcdefghi".chars() { w.create_vault(&format!("uaa{c}"), 0, 1_000_000_000_000_000).expect("extra vault"); } }
     let bcode = w.app.store_code(borrower::contract());
     let borrower = w.app.instantiate_contract(bcode, Addr::unchecked(OWNER), &Empty {}, &[], "borrower", None).unwrap();
     for d in A { w.transfer("donor", borrower.as_str(), d, 1u128 << 99).unwrap(); }
@@ -319,7 +321,7 @@ fn gen_setup(rng: &mut Rng) -> Setup {
     let liq = |rng: &mut Rng| { let x = *rng.pick(&[1_000_000u128, 50_000_000, 1_000_000_000_000, 1_000_000_000_000]); (x, x + rng.below128(x)) };
     Setup { grace: 1 + rng.below(3), pair_fees: [pf(rng), pf(rng), pf(rng)], liquidity: [liq(rng), liq(rng), liq(rng)],
             vault_fees: [pf(rng), pf(rng), pf(rng)], routes: [*rng.pick(&[1u8, 1, 1, 1, 0, 2]), *rng.pick(&[1u8, 1, 0, 0, 2]), *rng.pick(&[1u8, 1, 1, 0, 2])],
-            cw20_btc: rng.below(5) < 2 }
+            cw20_btc: rng.below(5) < 2, many_vaults: rng.chance(1, 4) }
 }
 fn gen_rate(rng: &mut Rng) -> u128 { *rng.pick(&[0u128, 1, 10_000_000_000_000_000, 10_000_000_000_000_000, 333_333_333_333_333_333, DEC - 1, DEC, DEC + 5]) }
 
@@ -357,6 +359,7 @@ fn gen_history(out: &mut Out, rng: &mut Rng) {
     out.count(&format!("history:grace_{}", setup.grace));
     out.count(&format!("history:routes_{}{}{}", setup.routes[0], setup.routes[1], setup.routes[2]));
     out.count(if setup.cw20_btc { "history:ubtc_is_cw20" } else { "history:ubtc_is_native" });
+    if setup.many_vaults { out.count("history:twelve_vaults"); }
     x.emit(out);
 }
 
@@ -364,7 +367,7 @@ fn corpus(out: &mut Out) {
     let t0 = GENESIS_DEFAULT;
     let d = DAY_NS;
     let setup = Setup { grace: 1, pair_fees: [50_000_000_000_000_000; 3], liquidity: [(1_000_000_000, 1_000_000_000), (1_000_000_000, 2_000_000_000), (1_000_000, 1_000_000)],
-                        vault_fees: [10_000_000_000_000_000; 3], routes: [1, 0, 1], cw20_btc: false };
+                        vault_fees: [10_000_000_000_000_000; 3], routes: [1, 0, 1], cw20_btc: false, many_vaults: false };
     let evs: Vec<(u64, Ev)> = vec![
         (t0, Ev::Config { admin: true, active: Some(true), rate: Some(10_000_000_000_000_000), dao: Some(true) }),
         (t0, Ev::Config { admin: false, active: Some(false), rate: None, dao: None }),
